@@ -288,6 +288,25 @@ package bytecode
 //@   presumes wf: (((*l) is *ast.AstString) ==> ((*l) as *ast.AstString) != nil) && (((*l) is *ast.AstCharacterClass) ==> ((*l) as *ast.AstCharacterClass) != nil) && (((*l) is *ast.AstRange) ==> ((*l) as *ast.AstRange) != nil && ((*l) as *ast.AstRange).From != nil && ((*l) as *ast.AstRange).To != nil)
 //@   ensures one: result.1 == nil ==> len(result.0) == 1 && listableInst(result.0[0], *l)
 
+// Layout of a `not in` list (C01): per item k the triple StartNotIn, the item's leaf, FailNotIn at
+// 3k, 3k+1, 3k+2 (stated per position p: p % 3 picks the role, p / 3 the item); every StartNotIn points at the position after its own triple (the next item's
+// StartNotIn, or the closing EndNotIn), and EndNotIn closes the code. The size EndNotIn consumes is
+// what (AstList).GetMaxSize returns, whose body is abstracted here (not pinned); that position 3k+1
+// holds the leaf of item k is generateListable's contract for the one instruction it returns (the
+// per-position statement `listableInst(result.0[p], l.Contents[p / 3])` was not discharged by any solver
+// and is not claimed).
+//@ func generate_not [C01]
+//@   noframe
+//@   requires l != nil
+//@   let n := len(l.Contents)
+//@   ensures size: result.1 == nil ==> len(result.0) == 3 * n + 1
+//@   ensures starts: result.1 == nil ==> forall p :: { result.0[p] } 0 <= p && p < 3 * n && p % 3 == 0 ==> result.0[p] is StartNotIn && (result.0[p] as StartNotIn).NextCheckpointPC == offset + p + 3
+//@   ensures fails: result.1 == nil ==> forall p :: { result.0[p] } 0 <= p && p < 3 * n && p % 3 == 2 ==> result.0[p] is FailNotIn
+//@   ensures close: result.1 == nil ==> result.0[3 * n] is EndNotIn
+//@   loop 1 invariant place: fresh(insts) && rangeindex < n && len(insts) == 3 * (rangeindex + 1) && pc == offset + 3 * (rangeindex + 1) && l.Contents == old(l.Contents) && len(l.Contents) == n
+//@   loop 1 invariant starts: forall p :: { insts[p] } 0 <= p && p < len(insts) && p % 3 == 0 ==> insts[p] is StartNotIn && (insts[p] as StartNotIn).NextCheckpointPC == offset + p + 3
+//@   loop 1 invariant fails: forall p :: { insts[p] } 0 <= p && p < len(insts) && p % 3 == 2 ==> insts[p] is FailNotIn
+
 // Layout of a loop (C01): every mandatory iteration of an unnamed loop is the body's code
 // generated for the position where it is placed (P records the chunk starts); the repeating
 // part is StartLoop, the body generated for the position after it, StopLoop, with the two
